@@ -54,7 +54,7 @@ func init() {
 		Rule:    "one live regnet node per shard (mode quiet / real netsync event handler subscribed / forced reader inside block-disconnected events); a case is one (step, probe) pair: step = mined block with 0-3 signed transfers (with or without a stored confirm), mempool submission, fork of depth 1-3 that wins (re-mining some detached txs at other heights), lookup burst, NetServer.pushBlockMsg/pushConfirmedBlockMsg; probe = txid / synthetic tx naming 1-4 outpoints (recent, losing-branch-only, out-of-range, unknown) / block hash / send sequence over <=4 hashes x {confirmed,unconfirmed} interleaved with other commands. non-trivial = the probe names an object the node has stored at some time (so the cached and the uncached path can both answer)",
 		Shards:  func(tier string) int { return 8 },
 		Run:     runC15,
-		Require: []string{"a_ref_lookups", "a_ref_hits", "a_ref_misses", "a_ref_evictions", "a_tx_lookups", "a_entries_cached_before_reorg_for_rolled_back_txs", "a_rolledback_probes", "b_fetch_lookups", "b_hits", "b_misses", "c_block_lookups", "c_hits", "c_confirmed_blocks_checked", "c_unconfirmed_blocks_checked", "c_evictions", "d_block_sends", "d_hits", "d_evictions", "reorgs", "chain_fork_scenarios", "c_push_block_msgs", "conc_rounds", "conc_reader_ops", "honest_blocks_accepted", "audits"},
+		Require: []string{"a_ref_lookups", "a_ref_hits", "a_ref_misses", "a_ref_evictions", "a_tx_lookups", "a_entries_cached_before_reorg_for_rolled_back_txs", "a_rolledback_probes", "b_fetch_lookups", "b_hits", "b_misses", "c_block_lookups", "c_hits", "c_confirmed_blocks_checked", "c_unconfirmed_blocks_checked", "c_evictions", "d_block_sends", "d_hits", "d_evictions", "reorgs", "chain_fork_scenarios", "c_push_block_msgs", "conc_rounds", "conc_reader_ops", "honest_blocks_accepted", "audits", "s_pushes", "s_pops", "s_zero_output_probes_after_rollback", "s_zero_input_probes_after_rollback"},
 		Assumptions: []string{
 			"the uncached answer is the node's own database read without the cache lookup (tx index + block region, raw FetchBlock + decode, Message.Serialize); that path is the specification here",
 			"regnet proof-of-work era: ProcessBlock stores a handed-in confirm without validating it, so confirmed and unconfirmed stored blocks can be produced without DPoS infrastructure; confirms are fabricated",
@@ -150,6 +150,8 @@ func runC15(c *kit.Ctx) {
 	} else if c.Shard < 2 {
 		e.txCacheBound(r)
 	}
+	// ---- phase 5: store level, tx shapes the pow-era context checks do not admit ----
+	e.storeLevel(c.Rand("c15-store"))
 	e.audit(r, "final", 40)
 }
 
@@ -732,7 +734,10 @@ func (e *c15Env) lookupRef(p c15Probe, judge bool) {
 	}
 	switch {
 	case err == nil && !dbAll:
-		if rolledBack {
+		if _, _, lerr := e.nd.Store.GetTransaction(firstBad.Previous.TxID); rolledBack && lerr == nil {
+			// the layer below (tx cache of the index) still answers: its own oracle reports that
+			c.Inc("a_stale_answers_caused_by_layer_below")
+		} else if rolledBack {
 			cl := e.staleClassOf(firstBad.Previous.TxID, firstBad)
 			c.Violate("utxocache:serves-rolled-back-tx:"+cl, fmt.Sprintf("GetTxReference answered for outpoint %s:%d although its transaction is on no active-chain block any more (uncached lookup: not found); class=%s mode=%s concurrent-phase=%v", firstBad.Previous.TxID.String()[:16], firstBad.Previous.Index, cl, e.mode, e.concurrent),
 				map[string]interface{}{"probe": p.id(), "mode": e.mode})
@@ -814,7 +819,11 @@ func (e *c15Env) lookupUCTx(id common.Uint256, judge bool) {
 	}
 	switch {
 	case err == nil && uerr != nil:
-		if known && !onChain {
+		if _, _, lerr := e.nd.Store.GetTransaction(id); known && !onChain && lerr == nil {
+			// the layer below (tx cache of the index) still answers: its own oracle reports that
+			c.Inc("a_rolledback_probes")
+			c.Inc("a_stale_answers_caused_by_layer_below")
+		} else if known && !onChain {
 			c.Inc("a_rolledback_probes")
 			cl := e.staleClassOf(id, nil)
 			c.Violate("utxocache:serves-rolled-back-tx:"+cl, fmt.Sprintf("GetTransaction(%s) answered although the transaction is on no active-chain block any more (uncached lookup: %v); class=%s mode=%s concurrent-phase=%v", id.String()[:16], uerr, cl, e.mode, e.concurrent),
@@ -884,6 +893,11 @@ func (e *c15Env) lookupIdxTx(id common.Uint256, judge bool) {
 		sig := "txcache:FetchTx:answers-where-uncached-fails"
 		if known && !onChain {
 			sig = "txcache:serves-rolled-back-tx"
+			e.mu.RLock()
+			if ktx := e.txs[id]; ktx != nil && len(ktx.Outputs()) == 0 {
+				sig += ":zero-output"
+			}
+			e.mu.RUnlock()
 		}
 		c.Violate(sig, fmt.Sprintf("FetchTx(%s) answered from the cache (hit=%v), uncached: %v", id.String()[:16], hit, uerr), nil)
 	case err != nil && uerr == nil:
